@@ -20,14 +20,18 @@ Section Inv.
   Definition mt_unique (w : world) : Prop :=
     forall f g, any_file w f -> any_file w g -> f_mtime f = f_mtime g -> f_content f = f_content g.
 
-  (* a remembered (ticket, time) pair is sound: whichever existing file carries that time has that hash *)
+  (* a remembered state is sound: either it is the whole state FileState::empty() ("nothing is remembered
+     about this path": the shortcut never applies to it, see Work.shortcut), or its (ticket, time) pair is
+     sound: whichever existing file carries that time has that hash.  Files may carry ANY time, 0 (the
+     Unix epoch) included: the empty state is recognised by all three of its fields, not by its time. *)
   Definition state_ok (w : world) (st : fstate) : Prop :=
-    fs_mtime st <= w_clock w /\
-    forall f, any_file w f -> f_mtime f = fs_mtime st -> fs_t st = hc (f_content f).
+    is_empty_state teqb hc st = true \/
+    (fs_mtime st <= w_clock w /\
+     forall f, any_file w f -> f_mtime f = fs_mtime st -> fs_t st = hc (f_content f)).
 
-  (* the clock is ahead of every file, and no file carries time 0 (the time of "nothing remembered") *)
+  (* the clock is not behind any file (nothing is assumed about time 0) *)
   Definition clock_ok (w : world) : Prop :=
-    forall f, any_file w f -> 0 < f_mtime f /\ f_mtime f <= w_clock w.
+    forall f, any_file w f -> f_mtime f <= w_clock w.
 
   (* CA: every cache entry is stored under the hash of its own content *)
   Definition cache_addressed (w : world) : Prop :=
